@@ -332,7 +332,7 @@ pub struct Tables {
 
 impl Tables {
     pub fn text(&mut self, t: &str) {
-        if t.len() > 64 {
+        if t.len() > 512 {
             return; // no float literal the readers ask for is this long, except garbage that fails anyway
         }
         self.p32.entry(t.to_string()).or_insert_with(|| t.parse::<f32>().ok().map(f32::to_bits));
@@ -493,6 +493,8 @@ fn sstr_lines(f: &Forest) -> Vec<String> {
 /// all lines of a dom case
 pub fn dom_case_lines(f: &Forest) -> Vec<String> {
     let mut t = Tables::default();
+    t.text("0"); // the envelope of a ColorSequence keypoint
+    t.text(""); // an element without character data
     for n in &f.nodes {
         for (_, v) in &n.props {
             t.value(v);
@@ -509,6 +511,7 @@ pub fn dom_case_lines(f: &Forest) -> Vec<String> {
 pub fn text_case_lines(text: &[u8], dec: &str, expect: Option<&Forest>, extra_opts: &[(String, String)]) -> Vec<String> {
     let (revs, _) = revent_lines(text);
     let mut t = Tables::default();
+    t.text(""); // an element without character data
     t.revents(&revs);
     let mut out = vec!["kind text".to_string(), format!("opt dec {dec}")];
     for (k, v) in extra_opts {
@@ -558,6 +561,9 @@ pub fn run_dom_case(id: &str, lines: &[String], stats: &mut BTreeMap<String, u64
             bump(stats, &format!("enc_err_{}", encode_error_class(&m)));
             obs.push(format!("ENC ERR {}", encode_error_class(&m)));
             crate::xmloracle::on_encode_failure(id, &f, &m, false, &mut oracle);
+            if f.opt("stream") == Some("mig") {
+                crate::xmlmig::check_write_path(id, lines, None, Some(&m), stats, &mut oracle);
+            }
         }
         Enc::Ok(text) => {
             bump(stats, "enc_ok");
@@ -581,6 +587,9 @@ pub fn run_dom_case(id: &str, lines: &[String], stats: &mut BTreeMap<String, u64
                 obs.extend(dec_obs(&d));
             }
             crate::xmloracle::on_round_trip(id, &f, &dom, &map, &roots, &text, &d, &enc, &dec, stats, &mut oracle);
+            if f.opt("stream") == Some("mig") {
+                crate::xmlmig::check_write_path(id, lines, Some(&d), None, stats, &mut oracle);
+            }
             text_out = Some(text);
         }
     }
